@@ -22,8 +22,17 @@
 // Source behaviours: plain (instant / small delays, honouring ctx or not); failing after p items;
 // blocking in Next until its ctx is done after k items (a pipe with nothing to deliver) while f
 // fails on a handed-out item, or while Close is called; consumer-dependent (pull m returns only
-// once the consumer has received m-d results, d >= 0 — always satisfiable by a correct
-// implementation because those results only need items < m).
+// once the consumer has received need(m) <= m results: "lag d" need = m-d, "wave w" need =
+// (m/w)*w, a work list fed by the consumer — always satisfiable by a correct implementation
+// because those results only need items < m). A small scope is enumerated on top of the random
+// cases: len 3..4 (5 in thorough; 5..6 sampled) x every wanted completion order of f (gates: f(i)
+// returns after rank(i) other calls completed, with a pause as fall-back when those cannot be
+// running) x parallelism 2..3 x bufferSize 0..2 x {lag 0,1,2, wave 2,3}, so that results sit in the
+// reorder heap while the source waits for the consumer.
+// Injected error VALUES (source and f): a sentinel, context.Canceled itself, a wrapped
+// context.Canceled, context.DeadlineExceeded, an error wrapping stream.End, an error whose Is
+// method matches stream.End. The reported error must be the injected one (errors.Is(reported,
+// injected), compared before any "bare context error" judgement) and End is recognised by == only.
 //
 // Deliberately NOT demanded (the statement leaves these open): how many of the results that precede
 // an error are delivered; which of several errors is reported; anything about Next calls after the
@@ -58,7 +67,31 @@ var (
 
 const gridCells = 5 * 5 * 6
 
-var errSrc = errors.New("verif: injected source error")
+// Error values injected into the source and into f (the VALUE is a dimension of the workload: the
+// library must hand it through untouched whatever it looks like).
+var errKinds = []string{"sentinel", "context.Canceled", "wrapped context.Canceled", "context.DeadlineExceeded", "wraps stream.End", "Is(stream.End)"}
+
+// endLike is an error whose Is method claims to be stream.End.
+type endLike struct{ what string }
+
+func (e *endLike) Error() string        { return e.what }
+func (e *endLike) Is(target error) bool { return target == stream.End }
+
+func mkErr(kind int, what string) error {
+	switch kind {
+	case 1:
+		return context.Canceled
+	case 2:
+		return fmt.Errorf("%s: %w", what, context.Canceled)
+	case 3:
+		return context.DeadlineExceeded
+	case 4:
+		return fmt.Errorf("%s: %w", what, stream.End)
+	case 5:
+		return &endLike{what}
+	}
+	return errors.New(what)
+}
 
 func main() {
 	vkit.Main("C14", "exploration", func(r *vkit.Report) {
@@ -67,22 +100,39 @@ func main() {
 			"ignoring / honouring / blocking on its context | caller cancels the construction context | source blocks in Next until ctx done " +
 			"after k items while f fails on a handed-out item | same with Close], source consumer-dependent or not (pull m waits for m-d received results), per-call context expiry on/off); " +
 			"the (length, parallelism, bufferSize) grid of 150 cells is enumerated by case index, the rest is drawn from the seed; " +
-			"parallelism -1 counts once per GOMAXPROCS value it resolved to. " +
+			"parallelism -1 counts once per GOMAXPROCS value it resolved to. The injected error value kind (6 kinds) and the source's " +
+			"consumer-dependency model are part of the tuple. Plus the enumerated small scope: (api, len 3..4 [5 in thorough], wanted completion " +
+			"permutation of f, parallelism 2..3, bufferSize 0..2, source model in {lag 0,1,2, wave 2,3}), and sampled len 5..6. " +
 			"non-trivial = the source had >= 2 items (order can matter); distinct = by the tuple with fault / close positions bucketed " +
 			"into {0, 1, middle, len-1, len}. Cases with < 2 items are run and judged but not counted.")
 		r.Assume("f is a pure function of the item and the source hands out each item once (both are the monitor's own)")
 		r.Assume("parallelism <= 0 means runtime.GOMAXPROCS at the time of the call")
 		r.Assume("the goroutine dump format of the Go runtime in use (go1.23) — used for the STUCK verdict and the leak check")
 
-		nIter := r.Scale(900, 3600)
-		nStream := r.Scale(2400, 9000)
+		nIter := r.Scale(900, 2600)
+		nStream := r.Scale(2400, 6600)
 		workers := 4
 		if runtime.GOMAXPROCS(0) < 4 {
 			workers = 2
 		}
 		st := &stats{orders: make(map[uint64]struct{})}
-		r.Cases("iter", nIter, workers, func(c *vkit.Case) { runCase(c, "iter", st) })
-		r.Cases("stream", nStream, workers, func(c *vkit.Case) { runCase(c, "stream", st) })
+		r.Cases("iter", nIter, workers, func(c *vkit.Case) { runPlan(c, mkPlan(c, "iter"), st) })
+		r.Cases("stream", nStream, workers, func(c *vkit.Case) { runPlan(c, mkPlan(c, "stream"), st) })
+
+		// Small scope, enumerated: every wanted completion order of f x parallelism x bufferSize x
+		// consumer-dependent source model (so that results sit in the reorder heap while the
+		// source waits for the consumer).
+		small := smallSpecs(r.Thorough())
+		nRand := r.Scale(150, 600)
+		for _, api := range []string{"iter", "stream"} {
+			api := api
+			r.Cases("small-"+api, len(small), workers, func(c *vkit.Case) { runPlan(c, mkSmallPlan(c.Rand, api, small[c.Index]), st) })
+			r.Cases("small-rand-"+api, nRand, workers, func(c *vkit.Case) {
+				sp := smallSpec{n: 5 + c.Rand.Intn(2), par: 2 + c.Rand.Intn(2), buf: c.Rand.Intn(3), model: c.Rand.Intn(len(smallModels))}
+				sp.perm = c.Rand.Perm(sp.n)
+				runPlan(c, mkSmallPlan(c.Rand, api, sp), st)
+			})
+		}
 
 		st.mu.Lock()
 		r.SetExtra("distinct_completion_orders", len(st.orders))
@@ -106,6 +156,13 @@ func main() {
 			r.Floor("MapStream cases in which the source really waited for the consumer", r.Table("consumer-dependent source", "stream cases with a real wait"), 20)
 			r.Floor("f failed while the source was blocked in Next until ctx done", r.Table("blocking source", "cases in which the source blocked until its ctx was done (blockferr)"), 20)
 			r.Floor("Close while the source was blocked in Next until ctx done", r.Table("blocking source", "cases in which the source blocked until its ctx was done (blockclose)"), 10)
+			r.Floor("enumerated small cases (completion order x parallelism x bufferSize x source model), MapIterator", r.Table("cases", "small-iter"), int64(len(small)))
+			r.Floor("enumerated small cases (completion order x parallelism x bufferSize x source model), MapStream", r.Table("cases", "small-stream"), int64(len(small)))
+			r.Floor("small cases in which the source waited for the consumer while f completed out of order", r.Table("consumer-dependent source", "iter cases with a real wait and out-of-order completion")+r.Table("consumer-dependent source", "stream cases with a real wait and out-of-order completion"), 100)
+			for _, k := range errKinds {
+				r.Floor("source errors surfaced with value kind "+k, r.Table("surfaced error value", "source: "+k), 5)
+				r.Floor("f errors surfaced with value kind "+k, r.Table("surfaced error value", "f: "+k), 5)
+			}
 			r.Floor("errors surfaced that f returned", r.Table("stream error", "from f"), 20)
 			r.Floor("errors surfaced that the source returned", r.Table("stream error", "from source"), 20)
 		}
@@ -131,9 +188,17 @@ type plan struct {
 	Expiry   bool   `json:"ctx_expiry"`
 	SrcCtx   bool   `json:"source_honours_ctx"`
 	Strag    int    `json:"straggler"` // -1: none
-	// LockD >= 0: a consumer-dependent source: its pull number m (0-based) only returns once the
-	// consumer has received m-LockD results (always satisfiable: those results only need items < m).
-	LockD int `json:"source_waits_for_consumer_lag"`
+	// A consumer-dependent source: its pull number m (0-based) only returns once the consumer has
+	// received need(m) <= m results (always satisfiable: those results only need items < m).
+	// Dep "lag": need(m) = m-DepK. Dep "wave": need(m) = (m/DepK)*DepK, i.e. the items come in
+	// waves of DepK and a wave is only submitted after every result of the earlier waves was
+	// received (a request-response / consumer-fed work list).
+	Dep  string `json:"source_depends_on_consumer,omitempty"`
+	DepK int    `json:"source_dependency_k"`
+	// Value kinds of the injected errors (index into errKinds).
+	SrcErrKind string `json:"source_error_value,omitempty"`
+	FErrKind   string `json:"f_error_value,omitempty"`
+	Perm       []int  `json:"f_completion_order_wanted,omitempty"`
 	// SrcBlockAt >= 0: after that many items the source's Next blocks until its ctx is done.
 	SrcBlockAt int `json:"source_blocks_after"`
 	P          int `json:"effective_parallelism"`
@@ -144,6 +209,8 @@ type plan struct {
 	lat      []int32 // per index, µs
 	fail     []bool
 	errF     []error
+	errSrcV  error
+	rank     []int   // small scope: wanted completion rank per index (nil otherwise)
 	srcLat   []int32 // per pull (cyclic), µs
 	paceLat  []int32 // per result (cyclic), µs
 	ctxMode  []uint8 // per Next ordinal (cyclic): 0 live, 1 already cancelled, 2.. timeout
@@ -167,18 +234,25 @@ func imin(a, b int) int {
 	return b
 }
 
-func mkPlan(c *vkit.Case, api string) *plan {
-	rnd := c.Rand
-	g := c.Index % gridCells
-	pl := &plan{API: api, N: lens[g%5], Par: pars[(g/5)%5], Buf: bufs[g/25], SrcErrAt: -1, CloseAt: -1, OuterAt: -1, Strag: -1, LockD: -1, SrcBlockAt: -1, FMode: "ignore", Mode: "none"}
-	n := pl.N
+// need is the number of received results pull number m of a consumer-dependent source waits for.
+func (pl *plan) need(m int) int {
+	switch pl.Dep {
+	case "lag":
+		return m - pl.DepK
+	case "wave":
+		return (m / pl.DepK) * pl.DepK
+	}
+	return 0
+}
+
+func basePlan(rnd *vkit.Rand, api string, n, par, buf int) *plan {
+	pl := &plan{API: api, N: n, Par: par, Buf: buf, SrcErrAt: -1, CloseAt: -1, OuterAt: -1, Strag: -1, SrcBlockAt: -1, FMode: "ignore", Mode: "none", Lat: "zero", Pace: "fast"}
 	pl.P = pl.Par
 	if pl.P <= 0 {
 		pl.P = runtime.GOMAXPROCS(0)
 	}
 	pl.beff = imax(pl.Buf, pl.P)
 	pl.Bound = imax(pl.Buf, 0) + pl.P + 1
-
 	pl.vals = rnd.Perm(n)
 	pl.inv = make([]int, n)
 	for i, v := range pl.vals {
@@ -186,9 +260,100 @@ func mkPlan(c *vkit.Case, api string) *plan {
 	}
 	pl.fail = make([]bool, n)
 	pl.errF = make([]error, n)
+	pl.lat = make([]int32, n)
+	pl.srcLat = make([]int32, 37)
+	pl.paceLat = make([]int32, 41)
+	pl.ctxMode = make([]uint8, 64)
+	return pl
+}
+
+func (pl *plan) setFail(j, kind int) {
+	if pl.fail[j] {
+		return
+	}
+	pl.fail[j] = true
+	pl.errF[j] = mkErr(kind, fmt.Sprintf("verif: injected f error at index %d", j))
+	pl.FailAt = append(pl.FailAt, j)
+	pl.FErrKind = errKinds[kind]
+}
+
+// Small enumerated scope.
+
+type smallSpec struct {
+	n, par, buf, model int
+	perm               []int // perm[k] = index whose f should finish k-th
+}
+
+var smallModels = []struct {
+	dep string
+	k   int
+}{{"lag", 0}, {"lag", 1}, {"lag", 2}, {"wave", 2}, {"wave", 3}}
+
+func perms(n int) [][]int {
+	var out [][]int
+	var rec func(cur []int, used int)
+	rec = func(cur []int, used int) {
+		if len(cur) == n {
+			out = append(out, append([]int(nil), cur...))
+			return
+		}
+		for i := 0; i < n; i++ {
+			if used&(1<<i) == 0 {
+				rec(append(cur, i), used|1<<i)
+			}
+		}
+	}
+	rec(nil, 0)
+	return out
+}
+
+func smallSpecs(thorough bool) []smallSpec {
+	var out []smallSpec
+	for _, n := range []int{3, 4} {
+		for _, pm := range perms(n) {
+			for par := 2; par <= 3; par++ {
+				for buf := 0; buf <= 2; buf++ {
+					for m := range smallModels {
+						out = append(out, smallSpec{n, par, buf, m, pm})
+					}
+				}
+			}
+		}
+	}
+	if thorough {
+		for i, pm := range perms(5) {
+			for par := 2; par <= 3; par++ {
+				for buf := 0; buf <= 2; buf++ {
+					out = append(out, smallSpec{5, par, buf, (i + par + buf) % len(smallModels), pm})
+				}
+			}
+		}
+	}
+	return out
+}
+
+func mkSmallPlan(rnd *vkit.Rand, api string, sp smallSpec) *plan {
+	pl := basePlan(rnd, api, sp.n, sp.par, sp.buf)
+	pl.Lat = "perm"
+	pl.Perm = sp.perm
+	// Completion order by gates: f(idx) returns only after rank[idx] other calls have completed
+	// (or, when those cannot be running yet, after a pause that grows with the rank).
+	pl.rank = make([]int, sp.n)
+	for rank, idx := range sp.perm {
+		pl.rank[idx] = rank
+	}
+	pl.Dep, pl.DepK = smallModels[sp.model].dep, smallModels[sp.model].k
+	pl.SrcCtx = true
+	return pl
+}
+
+func mkPlan(c *vkit.Case, api string) *plan {
+	rnd := c.Rand
+	g := c.Index % gridCells
+	pl := basePlan(rnd, api, lens[g%5], pars[(g/5)%5], bufs[g/25])
+	n := pl.N
 
 	// f latency table.
-	pl.lat = make([]int32, n)
 	pl.Lat = vkit.Pick(rnd, []string{"rev", "rev", "random", "strag0", "strag0", "zero", "table"})
 	switch pl.Lat {
 	case "rev": // within every window of beff+1 items the late ones finish first
@@ -238,8 +403,12 @@ func mkPlan(c *vkit.Case, api string) *plan {
 			pl.Strag = rnd.Intn(n)
 		}
 	}
-	if rnd.Bool(0.22) {
-		pl.LockD = vkit.Pick(rnd, []int{0, 0, 0, 1, 1, 2, imax(pl.beff-1, 0), pl.beff})
+	if rnd.Bool(0.25) {
+		if rnd.Bool(0.5) {
+			pl.Dep, pl.DepK = "lag", vkit.Pick(rnd, []int{0, 0, 0, 1, 1, 2, imax(pl.beff-1, 0), pl.beff})
+		} else {
+			pl.Dep, pl.DepK = "wave", vkit.Pick(rnd, []int{2, 2, 3, 4, imax(pl.beff, 2), pl.beff + 1})
+		}
 	}
 	// Keep the nominal cost of a case around 30 ms whatever the parallelism.
 	sum := 0
@@ -247,8 +416,11 @@ func mkPlan(c *vkit.Case, api string) *plan {
 		sum += int(l)
 	}
 	conc := pl.P
-	if pl.LockD >= 0 {
-		conc = imin(conc, pl.LockD+1)
+	switch pl.Dep {
+	case "lag":
+		conc = imin(conc, pl.DepK+1)
+	case "wave":
+		conc = imin(conc, pl.DepK)
 	}
 	if budget := 30000 * conc; sum > budget {
 		for i := range pl.lat {
@@ -257,7 +429,6 @@ func mkPlan(c *vkit.Case, api string) *plan {
 	}
 	pl.stragEx = int32(rnd.Intn(600))
 
-	pl.srcLat = make([]int32, 37)
 	if rnd.Bool(0.5) {
 		for i := range pl.srcLat {
 			switch rnd.Intn(8) {
@@ -269,7 +440,6 @@ func mkPlan(c *vkit.Case, api string) *plan {
 		}
 	}
 	pl.Pace = vkit.Pick(rnd, []string{"fast", "fast", "slow", "burst"})
-	pl.paceLat = make([]int32, 41)
 	switch pl.Pace {
 	case "slow":
 		scale := 200
@@ -311,17 +481,16 @@ func mkPlan(c *vkit.Case, api string) *plan {
 			if rnd.Bool(0.3) {
 				k = 2 + rnd.Intn(2)
 			}
+			kind := rnd.Intn(len(errKinds))
 			for i := 0; i < k; i++ {
-				j := pos(n - 1)
-				if !pl.fail[j] {
-					pl.fail[j] = true
-					pl.errF[j] = fmt.Errorf("verif: injected f error at index %d", j)
-					pl.FailAt = append(pl.FailAt, j)
-				}
+				pl.setFail(pos(n-1), kind)
 			}
 		}
 		if mode == "serr" || mode == "both" {
 			pl.SrcErrAt = pos(n)
+			kind := rnd.Intn(len(errKinds))
+			pl.SrcErrKind = errKinds[kind]
+			pl.errSrcV = mkErr(kind, "verif: injected source error")
 		}
 		if mode == "close" {
 			pl.CloseAt = pos(n)
@@ -340,13 +509,9 @@ func mkPlan(c *vkit.Case, api string) *plan {
 			if rnd.Bool(0.25) {
 				k = 2
 			}
+			kind := rnd.Intn(len(errKinds))
 			for i := 0; i < k; i++ {
-				j := pos(pl.SrcBlockAt - 1)
-				if !pl.fail[j] {
-					pl.fail[j] = true
-					pl.errF[j] = fmt.Errorf("verif: injected f error at index %d", j)
-					pl.FailAt = append(pl.FailAt, j)
-				}
+				pl.setFail(pos(pl.SrcBlockAt-1), kind)
 			}
 			if rnd.Bool(0.3) {
 				pl.FMode = "honour"
@@ -359,7 +524,6 @@ func mkPlan(c *vkit.Case, api string) *plan {
 		}
 		pl.Expiry = rnd.Bool(0.3)
 		pl.SrcCtx = rnd.Bool(0.5)
-		pl.ctxMode = make([]uint8, 64)
 		if pl.Expiry {
 			for i := range pl.ctxMode {
 				if i > 0 && pl.ctxMode[i-1] != 0 {
@@ -390,8 +554,13 @@ func mkPlan(c *vkit.Case, api string) *plan {
 		if pl.SrcBlockAt >= 0 {
 			goal = imin(goal, pl.SrcBlockAt)
 		}
-		if pl.LockD >= 0 {
-			goal = imin(goal, pl.Strag+pl.LockD+1)
+		if pl.Dep != "" {
+			// With the straggler held back the consumer receives exactly Strag results.
+			m := 0
+			for m < n && pl.need(m) <= pl.Strag {
+				m++
+			}
+			goal = imin(goal, m)
 		}
 		pl.gateGoal = int64(goal)
 	}
@@ -417,28 +586,34 @@ func bucket(k, n int) string {
 // srcDesc describes the source's behaviour for messages.
 func (pl *plan) srcDesc() string {
 	d := "plain"
-	if pl.LockD >= 0 {
-		d = fmt.Sprintf("pull m waits until the consumer has received m-%d results", pl.LockD)
+	switch pl.Dep {
+	case "lag":
+		d = fmt.Sprintf("pull m waits until the consumer has received m-%d results", pl.DepK)
+	case "wave":
+		d = fmt.Sprintf("items come in waves of %d, a wave only after all earlier results were received", pl.DepK)
 	}
 	if pl.SrcBlockAt >= 0 {
 		d += fmt.Sprintf("; blocks in Next until ctx is done after %d items", pl.SrcBlockAt)
 	}
 	if pl.SrcErrAt >= 0 {
-		d += fmt.Sprintf("; fails after %d items", pl.SrcErrAt)
+		d += fmt.Sprintf("; fails after %d items with a %s error", pl.SrcErrAt, pl.SrcErrKind)
 	}
 	return d
 }
 
 func lagBucket(pl *plan) string {
-	switch d := pl.LockD; {
-	case d < 0:
+	if pl.Dep == "" {
 		return "-"
-	case d <= 2:
-		return strconv.Itoa(d)
-	case d == pl.beff-1:
-		return "B-1"
 	}
-	return "B"
+	switch k := pl.DepK; {
+	case k <= 4:
+		return pl.Dep + strconv.Itoa(k)
+	case k == pl.beff-1:
+		return pl.Dep + "B-1"
+	case k == pl.beff:
+		return pl.Dep + "B"
+	}
+	return pl.Dep + "B+1"
 }
 
 func (pl *plan) key() string {
@@ -446,8 +621,8 @@ func (pl *plan) key() string {
 	if len(pl.FailAt) > 0 {
 		fa = fmt.Sprintf("%dx%s", len(pl.FailAt), bucket(pl.FailAt[0], pl.N))
 	}
-	return fmt.Sprintf("%s|%d|%d/%d|%d|%s|%s|%s|f%s|s%s|c%s|%s|o%s|x%v|g%v|l%s|b%s", pl.API, pl.N, pl.Par, pl.P, pl.Buf, pl.Lat, pl.Pace, pl.Mode,
-		fa, bucket(pl.SrcErrAt, pl.N), bucket(pl.CloseAt, pl.N), pl.FMode, bucket(pl.OuterAt, pl.N), pl.Expiry, pl.Strag >= 0, lagBucket(pl), bucket(pl.SrcBlockAt, pl.N))
+	return fmt.Sprintf("%s|%d|%d/%d|%d|%s|%s|%s|f%s|s%s|c%s|%s|o%s|x%v|g%v|l%s|b%s|e%s/%s|%v", pl.API, pl.N, pl.Par, pl.P, pl.Buf, pl.Lat, pl.Pace, pl.Mode,
+		fa, bucket(pl.SrcErrAt, pl.N), bucket(pl.CloseAt, pl.N), pl.FMode, bucket(pl.OuterAt, pl.N), pl.Expiry, pl.Strag >= 0, lagBucket(pl), bucket(pl.SrcBlockAt, pl.N), pl.SrcErrKind, pl.FErrKind, pl.Perm)
 }
 
 // ---------------------------------------------------------------------------------------------
@@ -481,11 +656,13 @@ type run struct {
 	srcInClose      atomic.Int32
 	srcNextDuring   atomic.Int64
 
-	got       atomic.Int64  // results received so far (the consumer-dependent source waits on it)
-	progress  chan struct{} // 1-slot wake-up for the single source goroutine
-	srcWaited atomic.Int64  // pulls that really had to wait for the consumer
-	srcBlocks atomic.Int64  // Next calls that blocked until ctx was done
-	phase     atomic.Value  // string
+	got          atomic.Int64  // results received so far (the consumer-dependent source waits on it)
+	progress     chan struct{} // 1-slot wake-up for the single source goroutine
+	srcWaited    atomic.Int64  // pulls that really had to wait for the consumer
+	doneCnt      atomic.Int64  // completed calls of f
+	gateTimeouts atomic.Int64  // small scope: calls that did not get their wanted completion rank
+	srcBlocks    atomic.Int64  // Next calls that blocked until ctx was done
+	phase        atomic.Value  // string
 
 	mu    sync.Mutex
 	order []int32 // completion order of f
@@ -526,14 +703,14 @@ func (r *run) received(got int) {
 }
 
 // waitConsumer makes pull number pos of a consumer-dependent source wait until the consumer has
-// received pos-LockD results (a channel wait, so a deadlock shows as parked goroutines). The got
+// received need(pos) results (a channel wait, so a deadlock shows as parked goroutines). The got
 // counter is stored before the wake-up token is offered and re-read after every token, so no
 // wake-up is lost. ctx is nil for the iterator source.
 func (r *run) waitConsumer(ctx context.Context, pos int) error {
-	if r.pl.LockD < 0 {
+	if r.pl.Dep == "" {
 		return nil
 	}
-	need := int64(pos - r.pl.LockD)
+	need := int64(r.pl.need(pos))
 	waited := false
 	for r.got.Load() < need {
 		waited = true
@@ -600,6 +777,23 @@ func (r *run) work(ctx context.Context, x int) (int, error) {
 		}
 		delay(pl.stragEx)
 	}
+	if pl.rank != nil {
+		rank := int64(pl.rank[idx])
+		limit := time.Duration(1500+300*rank) * time.Microsecond
+		t0 := time.Now()
+		for r.doneCnt.Load() < rank && time.Since(t0) < limit {
+			if ctx != nil && ctx.Err() != nil {
+				break
+			}
+			time.Sleep(20 * time.Microsecond)
+		}
+		if r.doneCnt.Load() < rank {
+			r.gateTimeouts.Add(1)
+		}
+		if rank > 0 {
+			time.Sleep(50 * time.Microsecond) // let the predecessor hand its result over first
+		}
+	}
 	us := pl.lat[idx]
 	if ctx != nil && pl.FMode == "honour" {
 		if ctx.Err() != nil {
@@ -629,6 +823,7 @@ func (r *run) work(ctx context.Context, x int) (int, error) {
 	r.mu.Lock()
 	r.order = append(r.order, int32(idx))
 	r.mu.Unlock()
+	r.doneCnt.Add(1)
 	if pl.fail[idx] {
 		r.fErrRet[idx].Store(true)
 		return 0, pl.errF[idx]
@@ -690,7 +885,7 @@ func (s *srcStream) Next(ctx context.Context) (int, error) {
 	}
 	if pl.SrcErrAt >= 0 && s.pos >= pl.SrcErrAt {
 		r.srcErrRet.Store(true)
-		return 0, errSrc
+		return 0, pl.errSrcV
 	}
 	if s.pos >= pl.N {
 		return 0, stream.End
@@ -723,6 +918,7 @@ type outcome struct {
 	errKind   string
 	expiries  int
 	closeBusy bool
+	errValue  string
 	dropped   int
 }
 
@@ -856,8 +1052,10 @@ func (r *run) streamScenario(o *outcome) {
 			o.ended = true
 			break
 		}
-		if cerr != nil && errors.Is(err, cerr) {
+		if cerr != nil && (err == cerr || (errors.Is(err, cerr) && !r.isInjected(err))) {
 			// The per-call context expired: nothing may be lost; go on with the next context.
+			// (An injected error that IS context.Canceled / DeadlineExceeded cannot be told from
+			// the expiry here; the next call with a live context reports it again.)
 			o.expiries++
 			continue
 		}
@@ -870,7 +1068,7 @@ func (r *run) streamScenario(o *outcome) {
 	case o.ended:
 		faulty := pl.SrcErrAt >= 0 || len(pl.FailAt) > 0
 		if faulty {
-			o.v = &viol{"error-lost", fmt.Sprintf("MapStream reported End after %d results although a failure was planted (f fails at %v, source fails after %d)", got, pl.FailAt, pl.SrcErrAt), nil}
+			o.v = &viol{"error-lost", fmt.Sprintf("MapStream reported End after %d results although a failure was planted (f fails at %v with a %q error, source fails after %d with a %q error [returned: %v])", got, pl.FailAt, pl.FErrKind, pl.SrcErrAt, pl.SrcErrKind, r.srcErrRet.Load()), nil}
 			return
 		}
 		if got != pl.N {
@@ -881,9 +1079,12 @@ func (r *run) streamScenario(o *outcome) {
 		o.finalErr = final.Error()
 		o.evals++
 		ok := false
-		if errors.Is(final, errSrc) && r.srcErrRet.Load() {
+		// The injected values are compared first, so that a source / f whose own error is
+		// context.Canceled is recognised as such and not as a cancellation made by the library.
+		if pl.errSrcV != nil && errors.Is(final, pl.errSrcV) && r.srcErrRet.Load() {
 			ok = true
 			o.errKind = "from source"
+			o.errValue = "source: " + pl.SrcErrKind
 			o.dropped = pl.SrcErrAt - got
 		}
 		if !ok {
@@ -891,6 +1092,7 @@ func (r *run) streamScenario(o *outcome) {
 				if errors.Is(final, pl.errF[j]) && r.fErrRet[j].Load() {
 					ok = true
 					o.errKind = "from f"
+					o.errValue = "f: " + pl.FErrKind
 					o.dropped = j - got
 				}
 			}
@@ -963,6 +1165,19 @@ func (r *run) streamScenario(o *outcome) {
 		return
 	}
 	r.phase.Store("done")
+}
+
+// isInjected reports whether err is (or wraps) one of the planted error values.
+func (r *run) isInjected(err error) bool {
+	if r.pl.errSrcV != nil && errors.Is(err, r.pl.errSrcV) {
+		return true
+	}
+	for _, j := range r.pl.FailAt {
+		if errors.Is(err, r.pl.errF[j]) {
+			return true
+		}
+	}
+	return false
 }
 
 func (r *run) failReturned() []bool {
@@ -1038,12 +1253,12 @@ func (st *stats) cells(api string) int {
 	return n
 }
 
-func runCase(c *vkit.Case, api string, st *stats) {
+func runPlan(c *vkit.Case, pl *plan, st *stats) {
 	rep := c.R
+	api := pl.API
 	if rep.NViolations() >= 3 {
 		return // enough witnesses; every further stuck case would cost seconds
 	}
-	pl := mkPlan(c, api)
 	r := newRun(pl)
 	var o outcome
 	var rootID atomic.Int64
@@ -1112,8 +1327,10 @@ func runCase(c *vkit.Case, api string, st *stats) {
 	}
 
 	// Evidence.
-	st.cell(api, c.Index%gridCells)
-	rep.Count("cases", api, 1)
+	if c.Group == api {
+		st.cell(api, c.Index%gridCells)
+	}
+	rep.Count("cases", c.Group, 1)
 	rep.Count("results compared", api, o.got)
 	rep.Count("source pulls checked against the bound", api, int(r.taken.Load()))
 	if pl.N >= 2 {
@@ -1167,8 +1384,24 @@ func runCase(c *vkit.Case, api string, st *stats) {
 	if multi > 0 {
 		rep.Count("f invocations (recorded, not judged)", "items given to f more than once", multi)
 	}
-	if pl.LockD >= 0 {
-		rep.Count("consumer-dependent source", api+" cases, lag "+lagBucket(pl), 1)
+	if pl.Perm != nil {
+		match := nOrder == len(pl.Perm)
+		r.mu.Lock()
+		for i := 0; match && i < nOrder; i++ {
+			match = int(r.order[i]) == pl.Perm[i]
+		}
+		r.mu.Unlock()
+		if match {
+			rep.Count("small scope", api+" cases whose completion order was exactly the wanted permutation", 1)
+		} else {
+			rep.Count("small scope", api+" cases whose wanted order was not reachable or not reached", 1)
+		}
+	}
+	if pl.Dep != "" {
+		rep.Count("consumer-dependent source", api+" cases, "+lagBucket(pl), 1)
+		if inv > 0 && r.srcWaited.Load() > 0 {
+			rep.Count("consumer-dependent source", api+" cases with a real wait and out-of-order completion", 1)
+		}
 		rep.Count("consumer-dependent source", api+" pulls that had to wait for the consumer", int(r.srcWaited.Load()))
 		if r.srcWaited.Load() > 0 {
 			rep.Count("consumer-dependent source", api+" cases with a real wait", 1)
@@ -1193,6 +1426,9 @@ func runCase(c *vkit.Case, api string, st *stats) {
 		}
 		if o.errKind != "" {
 			rep.Count("stream error", o.errKind, 1)
+			if o.errValue != "" {
+				rep.Count("surfaced error value", o.errValue, 1)
+			}
 			if o.dropped > 0 {
 				rep.Count("stream error", "preceding results not delivered (allowed)", o.dropped)
 			}
